@@ -12,6 +12,14 @@ pub use web_time::Instant;
 
 /// Checks if a deadline was exeeded.
 pub fn deadline_exceeded(deadline: Option<Instant>) -> bool {
+    #[cfg(similar_verif)]
+    {
+        if deadline.is_some() {
+            if let Some(rv) = crate::verif::clock_probe() {
+                return rv;
+            }
+        }
+    }
     #[allow(unreachable_code)]
     match deadline {
         Some(deadline) => {
